@@ -97,13 +97,18 @@ thread_local! {
 }
 /// A copy made by `clone()` / `clone_from()` IS the original (the model reads Clone as a field-wise copy): every SRP object the
 /// harness holds between two library calls passes through here.
-fn thru<T: Clone + PartialEq>(t: T) -> Result<T, String> {
+fn thru<T: Clone + PartialEq + Ord>(t: T) -> Result<T, String> {
     match CLONE_MODE.with(|m| m.get()) {
         0 => Ok(t),
         1 => {
             let c = t.clone();
             if c != t {
                 return Err("DISAGREE clone != original".into());
+            }
+            // the library's objects are ordered values too (derived Ord over their fields): a copy is EQUAL to its original under
+            // `cmp` / `partial_cmp` as well — and computing that must not panic (the call sits under the line's catch_unwind)
+            if c.cmp(&t) != std::cmp::Ordering::Equal || c.partial_cmp(&t) != Some(std::cmp::Ordering::Equal) || c < t || c > t {
+                return Err("DISAGREE clone is not Equal to the original under cmp".into());
             }
             drop(t);
             Ok(c)
@@ -126,9 +131,16 @@ fn pkerr(e: &InvalidPublicKeyError) -> &'static str {
     shown(e);
     // (wildcard arms: a tree that ADDS a refusal kind must still build here, so that the refusal shows up as a concrete failing
     // line instead of an unbuildable harness)
+    // "each reported with its own error kind" (C04): the kind is also what the caller READS — directly or after `?` into SrpError.
+    // The wording is not fixed; what is: the message for the key N names the modulus / the prime, the message for the key 0 does not.
+    let names_modulus = |t: String| { let t = t.to_lowercase(); t.contains("prime") || t.contains("modul") };
     match e {
-        InvalidPublicKeyError::PublicKeyIsZero => { std::hint::black_box(wow_srp::error::SrpError::from(InvalidPublicKeyError::PublicKeyIsZero).to_string()); "zero" }
-        InvalidPublicKeyError::PublicKeyModLargeSafePrimeIsZero => { std::hint::black_box(wow_srp::error::SrpError::from(InvalidPublicKeyError::PublicKeyModLargeSafePrimeIsZero).to_string()); "modzero" }
+        InvalidPublicKeyError::PublicKeyIsZero => {
+            if names_modulus(e.to_string()) || names_modulus(wow_srp::error::SrpError::from(InvalidPublicKeyError::PublicKeyIsZero).to_string()) { "zero-but-the-message-names-the-modulus" } else { "zero" }
+        }
+        InvalidPublicKeyError::PublicKeyModLargeSafePrimeIsZero => {
+            if !names_modulus(e.to_string()) || !names_modulus(wow_srp::error::SrpError::from(InvalidPublicKeyError::PublicKeyModLargeSafePrimeIsZero).to_string()) { "modzero-but-the-message-does-not-name-the-modulus" } else { "modzero" }
+        }
         _ => "other-refusal",
     }
 }
